@@ -225,6 +225,11 @@ func (eng *Engine) buildIntercepts() {
 		c.takers++
 		return nil
 	}
+	ic[envPkg+".ChanOnRecv"] = func(ex *Exec, caller *frame, fn *ssa.Function, args []Value) Value {
+		c := args[0].(IfaceV).v.(*ChanV)
+		c.takerFns = append(c.takerFns, args[1])
+		return nil
+	}
 	ic[envPkg+".ChanPending"] = func(ex *Exec, caller *frame, fn *ssa.Function, args []Value) Value {
 		c := args[0].(IfaceV).v.(*ChanV)
 		return ex.tt.BV(64, uint64(len(c.offers)))
